@@ -37,39 +37,46 @@ def call_onnx_api(func: Callable[[onnx.ModelProto], _R], model: ir.Model) -> _R:
     # Store the original initializer values so they can be restored
     initializer_values = tuple(model.graph.initializers.values())
     tensors = {v.name: v.const_value for v in initializer_values}
+    types_and_shapes = [(v, v.type, v.shape) for v in initializer_values]
     original_inputs_len = len(model.graph.inputs)
 
-    # Turn the initializers into inputs and clear the initializers
-    # to limit the model size
-    for initializer in initializer_values:
-        # Make sure the initializer has its shape/type set
-        if initializer.const_value is not None:
-            if initializer.shape is None:
-                initializer.shape = initializer.const_value.shape  # type: ignore[assignment]
-            if initializer.dtype is None:
-                initializer.dtype = initializer.const_value.dtype
-        if initializer not in model.graph.inputs:
-            model.graph.inputs.append(initializer)
-        if initializer.const_value is None:
-            # Initializer has no data (e.g. weights not loaded yet).
-            # Remove it from initializers so serialization doesn't fail,
-            # but keep it as an input so shape inference can use its type/shape.
-            assert initializer.name is not None
-            model.graph.initializers.pop(initializer.name)
-        elif initializer.const_value.nbytes > _BIG_TENSOR_SIZE_LIMIT:
-            # Temporarily remove the initializer value to reduce model size
-            # for onnx.shape_inference
-            initializer.const_value = None
-            assert initializer.name is not None
-            model.graph.initializers.pop(initializer.name)
-
-    proto = ir.serde.serialize_model(model)
-
     try:
+        # Turn the initializers into inputs and clear the initializers
+        # to limit the model size
+        for initializer in initializer_values:
+            # Make sure the initializer has its shape/type set
+            if initializer.const_value is not None:
+                if initializer.shape is None:
+                    initializer.shape = initializer.const_value.shape  # type: ignore[assignment]
+                if initializer.dtype is None:
+                    initializer.dtype = initializer.const_value.dtype
+            if initializer not in model.graph.inputs:
+                model.graph.inputs.append(initializer)
+            if initializer.const_value is None:
+                # Initializer has no data (e.g. weights not loaded yet).
+                # Remove it from initializers so serialization doesn't fail,
+                # but keep it as an input so shape inference can use its type/shape.
+                assert initializer.name is not None
+                model.graph.initializers.pop(initializer.name)
+            elif initializer.const_value.nbytes > _BIG_TENSOR_SIZE_LIMIT:
+                # Temporarily remove the initializer value to reduce model size
+                # for onnx.shape_inference
+                initializer.const_value = None
+                assert initializer.name is not None
+                model.graph.initializers.pop(initializer.name)
+
+        # Serialization can fail too (e.g. a lazy tensor that cannot be evaluated),
+        # so it must happen inside the try block for the model to be restored
+        proto = ir.serde.serialize_model(model)
+
         # Call the ONNX C API function
         result = func(proto)
     finally:
-        # Restore the original initializer values so the model is unchanged
+        # Restore the original initializer values, in their original order,
+        # so the model is unchanged
+        for initializer in initializer_values:
+            assert initializer.name is not None
+            model.graph.initializers.pop(initializer.name, None)
         for initializer in initializer_values:
             initializer.const_value = tensors[initializer.name]
             if initializer.const_value is not None:
@@ -79,6 +86,10 @@ def call_onnx_api(func: Callable[[onnx.ModelProto], _R], model: ir.Model) -> _R:
                 # Directly add to the initializers dict to restore unloaded
                 # initializers that have no data.
                 model.graph.initializers.add(initializer)
+        # Undo the temporary shape/type annotations
+        for initializer, type_, shape in types_and_shapes:
+            initializer.type = type_
+            initializer.shape = shape
 
         # Restore the original inputs
         inputs = model.graph.inputs[:original_inputs_len]
